@@ -169,7 +169,10 @@ var (
 //	    numeral - optional sign, digits with an optional fraction, optional exponent - also not after
 //	    white space around it is taken off: hexadecimal float, 0x/0b/0o integer, digits separated by
 //	    '_', an Inf/NaN word, anything else with a digit in it ("1x", "1e", "1.0.0", "1,000", "--1")
-//	anything else: a spelling the statement is silent about (laws only): numerals outside the range,
+//	"int-numeral-outside-int64", "float-numeral-overflow", "float-numeral-underflow": decimal numerals
+//	    denoting a number the number types do not hold; ref() decides them where both readings of the
+//	    statement (exact denotation / rounded to a float64 first) agree
+//	anything else: a spelling the statement is silent about (laws only):
 //	    a numeral with an empty integer or fraction part (".5", "5."), digits outside ASCII
 func numeral(s string) (class string, n Val) {
 	if reIntNumeral.MatchString(s) {
@@ -457,10 +460,33 @@ func ref(a, b Val) (defined, want bool, clause string) {
 		if r.Cmp(new(big.Rat).SetFloat64(f)) == 0 {
 			return true, true, "str-num-int-numeral-outside-int64-exactly-the-float"
 		}
-		if pf, err := strconv.ParseFloat(s.S, 64); err == nil && pf != f {
+		pf, err := strconv.ParseFloat(s.S, 64)
+		if err == nil && pf != f {
 			return true, false, "str-num-int-numeral-outside-int64-other-float"
 		}
+		if err != nil && math.IsInf(pf, 0) {
+			// an integer numeral of more than 308 digits: beyond every finite float64 (f is finite here)
+			return true, false, "str-num-numeral-beyond-float64-vs-finite"
+		}
 		return false, false, "str-num-int-numeral-outside-int64-rounds-to-float"
+	case "float-numeral-overflow":
+		// A decimal numeral all the same ("1e999", "1.8e308"): the number it denotes lies beyond the largest
+		// finite float64 by more than half a step, so it is none of the finite float64 and no int64, and
+		// rounding it gives an infinity, which equals no finite number either: unequal to every finite
+		// number under both readings. Against an infinity the readings differ (the numeral does not denote
+		// an infinity; rounded it is one), against NaN nothing is asserted.
+		if n.K == "int" || !(math.IsNaN(n.f()) || math.IsInf(n.f(), 0)) {
+			return true, false, "str-num-numeral-beyond-float64-vs-finite"
+		}
+		return false, false, "str-num-float-numeral-overflow-vs-nonfinite"
+	case "float-numeral-underflow":
+		// "1e-400" denotes a number that is not zero and closer to zero than to any other float64: it is no
+		// float64 other than (read after rounding) zero. Unequal to every number that is not zero under both
+		// readings; against zero they differ.
+		if (n.K == "int" && n.I != 0) || (n.K == "float" && n.f() != 0 && !math.IsNaN(n.f())) {
+			return true, false, "str-num-numeral-below-float64-vs-nonzero"
+		}
+		return false, false, "str-num-float-numeral-underflow-vs-zero-or-nan"
 	}
 	return false, false, "str-num-" + cls
 }
@@ -590,6 +616,55 @@ func spell(t *rapid.T, n Val) string {
 		}
 	}
 	return s
+}
+
+// outOfRangeSpell writes a decimal numeral whose number no float64 holds: too large (exponent beyond 308,
+// more than 308 digits before the point, a mantissa just above the largest float64) or too close to
+// zero (exponent below -324, more than 324 zeros after the point). What class the string really is
+// in is decided by numeral(), not here.
+func outOfRangeSpell(t *rapid.T) (s, how string) {
+	sign := []string{"", "", "-", "-", "+"}[uniform(t, 5, "oorsign")]
+	e := []string{"e", "E", "e+", "E+", "e+0"}[uniform(t, 5, "oore")]
+	mant := []string{"1", "1", "2.5", "9", "1.0", "17", "0.5", "4.9", "123456789", "0.001", "001"}[uniform(t, 11, "oormant")]
+	switch uniform(t, 8, "oorform") {
+	case 0, 1:
+		// exponent far beyond the range
+		how = "large-exponent"
+		s = sign + mant + e + strconv.Itoa([]int{400, 999, 330, 1000, 5000, 400000, 2147483648}[uniform(t, 7, "oorexp")])
+	case 2:
+		// just beyond the largest float64 (1.7976931348623157e308; half a step above it is ...158079e308)
+		how = "just-above-max"
+		s = sign + []string{"1.7976931348623159", "1.8", "1.797693134862315809", "2", "17.976931348623159e-1", "0.18e1", "179769313486231590"}[uniform(t, 7, "oormax")]
+		if strings.HasSuffix(s, "590") {
+			s += e + "291"
+		} else if strings.Contains(s, "e") {
+			s = strings.Replace(s, "e-1", "e307", 1)
+			s = strings.Replace(s, "e1", "e309", 1)
+		} else {
+			s += e + "308"
+		}
+		if rapid.IntRange(0, 3).Draw(t, "oor309") == 0 {
+			s = sign + mant + e + strconv.Itoa(312+uniform(t, 6, "oorexp2"))
+		}
+	case 3:
+		// written out: more than 308 digits before the point
+		how = "long-integer-part"
+		s = sign + strconv.Itoa(1+uniform(t, 9, "oorlead")) + strings.Repeat("0", 309+uniform(t, 100, "oorzeros")) +
+			[]string{".0", ".5", "", "e0", ".0e+0"}[uniform(t, 5, "oortail")]
+	case 4, 5:
+		// exponent far below the range
+		how = "small-exponent"
+		em := []string{"e-", "E-", "e-0"}[uniform(t, 3, "oorem")]
+		s = sign + mant + em + strconv.Itoa([]int{400, 999, 340, 1000, 5000, 400000, 2147483648}[uniform(t, 7, "oorexp")])
+	case 6:
+		// just below half the smallest float64 (4.94e-324; half of it is 2.47e-324)
+		how = "just-below-min"
+		s = sign + []string{"2e-324", "2.4e-324", "1e-324", "0.2e-323", "24e-325", "2.47e-324"}[uniform(t, 6, "oormin")]
+	default:
+		how = "long-fraction"
+		s = sign + "0." + strings.Repeat("0", 330+uniform(t, 100, "oorzeros")) + strconv.Itoa(1+uniform(t, 9, "oorlead"))
+	}
+	return s, how
 }
 
 func genStr(t *rapid.T) string {
@@ -1044,6 +1119,7 @@ var shapes = []string{
 	"num-near-numeral",
 	"num-nondecimal", "num-nondecimal",
 	"num-padded-numeral",
+	"num-out-of-range-numeral",
 	"str-str",
 	"nil-any",
 	"bool-any",
@@ -1175,6 +1251,27 @@ func genCase(t *rapid.T) Case {
 			}
 		}
 		a, b = x, vStr(s)
+		rel += ":" + how
+	case "num-out-of-range-numeral":
+		// a decimal numeral no float64 holds, against zero (what a failed conversion leaves behind), the
+		// limits of the number types, any number, an infinity
+		s, how := outOfRangeSpell(t)
+		var n Val
+		switch uniform(t, 8, "oornum") {
+		case 0, 1, 2:
+			n = []Val{vInt(0), vFloat(0), vFloat(math.Copysign(0, -1))}[uniform(t, 3, "zero")]
+		case 3, 4:
+			n = []Val{vFloat(math.MaxFloat64), vFloat(-math.MaxFloat64), vFloat(math.SmallestNonzeroFloat64), vFloat(-math.SmallestNonzeroFloat64),
+				vInt(math.MaxInt64), vInt(math.MinInt64), vInt(1), vInt(-1), vFloat(1)}[uniform(t, 9, "limit")]
+		case 5, 6:
+			n = genNum(t, true)
+		default:
+			n = vFloat(math.Inf(1 - 2*uniform(t, 2, "neg")))
+		}
+		if rapid.IntRange(0, 9).Draw(t, "pad") == 0 {
+			s = whitePads[3+uniform(t, len(whitePads)-3, "lead")] + s
+		}
+		a, b = n, vStr(s)
 		rel += ":" + how
 	case "num-near-numeral":
 		s := rapid.SampledFrom(nearNumerals).Draw(t, "near")
@@ -1656,7 +1753,7 @@ func oracleHist(c HistCase, o *h.Obs) *h.Fail {
 func TestC06(t *testing.T) {
 	c := h.New(t, "C06")
 	defer c.Finish()
-	c.Rule("ordered pairs (a,b) over nil, bool, int64/float64 edge pools (NaN included), numeral strings derived with strconv from those numbers (sign, leading zeros, fraction, exponent), near-numerals, numerals with white space around them (of the number, its other kind, a neighbour), plain strings, nested slices/maps (depth<=3) paired as copies / one same-typed leaf changed / one leaf changed in numeric type only / length changed / key renamed / kind switched / reordered; every pair evaluated as a==b, b==a, a!=b, b!=a, a in [b], b in [a], switch a{case b}, switch b{case a} and (numeric) a<=b&&a>=b, with literal and with variable operands; laws always asserted, reference value only where the statement defines one; non-trivial = cross-type pair, or both containers, or a number of magnitude >= 1e6; distinct by the spelling of (a,b)")
+	c.Rule("ordered pairs (a,b) over nil, bool, int64/float64 edge pools (NaN included), numeral strings derived with strconv from those numbers (sign, leading zeros, fraction, exponent), near-numerals, numerals with white space around them (of the number, its other kind, a neighbour), decimal numerals no float64 holds (exponent beyond 308 or below -324, more than 308 digits, just above the largest / below half the smallest float64) against zero, the limits of the number types, any number and the infinities, plain strings, nested slices/maps (depth<=3) paired as copies / one same-typed leaf changed / one leaf changed in numeric type only / length changed / key renamed / kind switched / reordered; every pair evaluated as a==b, b==a, a!=b, b!=a, a in [b], b in [a], switch a{case b}, switch b{case a} and (numeric) a<=b&&a>=b, with literal and with variable operands; laws always asserted, reference value only where the statement defines one; non-trivial = cross-type pair, or both containers, or a number of magnitude >= 1e6; distinct by the spelling of (a,b)")
 	h.Run(c, "pairs", c.N(50000, 500000), genCase, oracle)
 	c.Rule("stateless: a function comparing its parameter with one literal (==, != both ways, in, switch case) is called for 2-5 values in a row (the number the literal denotes, its other numeric kind, other spellings, neighbours, arbitrary primitives); the results must equal those of the same function evaluated for each value alone in a fresh program; non-trivial = the values are of >= 2 kinds")
 	h.Run(c, "stateless", c.N(8000, 80000), genHist, oracleHist)
@@ -1666,4 +1763,6 @@ func TestC06(t *testing.T) {
 	h.Run(c, "foreign", c.N(6000, 60000), genForeign, oracleForeign)
 	c.Rule("live-slot: the item of `in`, the subject of `switch` and the left operand of == / != are read from a slot (element of an untyped list, of a typed slice, of a []interface{} literal, of a nested list, of a list in a map, field of a struct behind a pointer - typed or interface -, map entry, dereferenced pointer, variable) while the list / case expression / right operand is a call of a function that stores another value into that slot and returns the compared value; (old, compared) or (new, compared) drawn like the pairs of `pairs`, the third value mostly unequal to its partner; every form starts from the slot set up afresh; asserted: slot in [g()], slot in typed[g()], switch slot {case g()} agree with slot == g(), the same with g() on the left, != is the negation, and every answer is the statement's value for (old, compared) or for (new, compared) where both are defined - which of the two is not asserted; non-trivial = the statement defines old == compared and new == compared and they differ")
 	h.Run(c, "live-slot", c.N(5000, 50000), genLive, oracleLive)
+	c.Rule("sites: one switch statement of 1-4 clauses (1-2 case expressions each, with or without default) and one `in` over the list of all its case expressions, body of a function or of a for-in loop, evaluated 3-8 times in a row; each case expression is a literal or reads one of two variables (plainly, in parentheses, through a function, a list element, a map entry); between evaluations a variable may get another value; subjects are the subject of the evaluation before, the present value of a variable, the value of a literal case, or a value near the case's number (other numeric kind, numeral spellings, neighbours, arbitrary primitives and containers); asserted at every evaluation: the clause taken holds a value v with subject == v, no clause is taken only when subject == v for no case value, and `in` is true exactly when subject == v for some v - with == asked of the interpreter in a fresh program over literals; which of several matching clauses is taken is not asserted; non-trivial = a case expression reads a variable that was assigned between two evaluations")
+	h.Run(c, "sites", c.N(5000, 50000), genSites, oracleSites)
 }
